@@ -190,9 +190,17 @@ struct Receiver<T> { t: Option<T> }
 struct Mutex<T> { t: Option<T> }
 #[verifier::reject_recursive_types(T)]
 struct MutexGuard<T> { pos: Ghost<nat>, t: Ghost<Option<T>> }
+
+// a queued item naming another session than the one asked for
+spec fn foreign_uni(x: Option<StreamUniRemoteWT>, s: SessionId) -> bool { x matches Some(f) && f.sid.v != s.v }
+spec fn foreign_bi(x: Option<StreamBiRemoteWT>, s: SessionId) -> bool { x matches Some(f) && f.sid.v != s.v }
+spec fn foreign_dgram(x: Option<Datagram>, s: SessionId) -> bool { x matches Some(f) && f.sid.v != s.v }
+
+// where the queue stands when a call takes the lock: unknown, but a function of the mutex
 impl<T> Mutex<T> {
+    uninterp spec fn queue_pos(&self) -> nat;
     #[verifier::external_body]
-    fn lock(&self) -> (r: MutexGuard<T>) { unimplemented!() }
+    fn lock(&self) -> (r: MutexGuard<T>) ensures r.pos@ == self.queue_pos() { unimplemented!() }
 }
 impl MutexGuard<Receiver<StreamUniRemoteWT>> {
     #[verifier::external_body]
@@ -352,9 +360,15 @@ impl Driver {
 //@ deawait
 //@ attr #[verifier::exec_allows_no_decreases_clause]
 //@ ensures
-//@ | r matches Ok(s) ==> s.sid.v == session_id.v && (exists|n: nat| feed_uni(n) == Some(s)),
-//@ | r matches Err(e) ==> e == self.result_spec() && (exists|n: nat| feed_uni(n) is None),
-//@ loop 1 invariant true
+//@ | exists|n: nat| #![trigger feed_uni(n)] n >= self.ready_uni_wt_streams.queue_pos()
+//@ |     // everything queued before it named another session (and was refused: monitor on `stop`) - no
+//@ |     // stream of this session is skipped or lost
+//@ |     && (forall|k: nat| self.ready_uni_wt_streams.queue_pos() <= k < n ==> foreign_uni(#[trigger] feed_uni(k), session_id))
+//@ |     && (match r {
+//@ |         Ok(s) => feed_uni(n) == Some(s) && s.sid.v == session_id.v,
+//@ |         Err(e) => feed_uni(n) is None && e == self.result_spec(),
+//@ |     }),
+//@ loop 1 invariant lock.pos@ >= self.ready_uni_wt_streams.queue_pos(), forall|k: nat| self.ready_uni_wt_streams.queue_pos() <= k < lock.pos@ ==> foreign_uni(#[trigger] feed_uni(k), session_id)
 //@ end
 
 //@ extract wtransport/src/driver/mod.rs >> impl Driver >> fn accept_bi
@@ -362,9 +376,15 @@ impl Driver {
 //@ deawait
 //@ attr #[verifier::exec_allows_no_decreases_clause]
 //@ ensures
-//@ | r matches Ok(s) ==> s.sid.v == session_id.v && (exists|n: nat| feed_bi(n) == Some(s)),
-//@ | r matches Err(e) ==> e == self.result_spec() && (exists|n: nat| feed_bi(n) is None),
-//@ loop 1 invariant true
+//@ | exists|n: nat| #![trigger feed_bi(n)] n >= self.ready_bi_wt_streams.queue_pos()
+//@ |     // everything queued before it named another session (and was refused: monitor on `stop`) - no
+//@ |     // stream of this session is skipped or lost
+//@ |     && (forall|k: nat| self.ready_bi_wt_streams.queue_pos() <= k < n ==> foreign_bi(#[trigger] feed_bi(k), session_id))
+//@ |     && (match r {
+//@ |         Ok(s) => feed_bi(n) == Some(s) && s.sid.v == session_id.v,
+//@ |         Err(e) => feed_bi(n) is None && e == self.result_spec(),
+//@ |     }),
+//@ loop 1 invariant lock.pos@ >= self.ready_bi_wt_streams.queue_pos(), forall|k: nat| self.ready_bi_wt_streams.queue_pos() <= k < lock.pos@ ==> foreign_bi(#[trigger] feed_bi(k), session_id)
 //@ end
 
 // C03 (send side): the bytes handed to QUIC are the datagram's wire image for THIS session; a payload is
@@ -389,9 +409,13 @@ impl Driver {
 //@ deawait
 //@ attr #[verifier::exec_allows_no_decreases_clause]
 //@ ensures
-//@ | r matches Ok(d) ==> d.sid.v == session_id.v && (exists|n: nat| feed_dgram(n) == Some(d)),
-//@ | r matches Err(e) ==> e == self.result_spec() && (exists|n: nat| feed_dgram(n) is None),
-//@ loop 1 invariant true
+//@ | exists|n: nat| #![trigger feed_dgram(n)] n >= self.ready_datagrams.queue_pos()
+//@ |     && (forall|k: nat| self.ready_datagrams.queue_pos() <= k < n ==> foreign_dgram(#[trigger] feed_dgram(k), session_id))
+//@ |     && (match r {
+//@ |         Ok(d) => feed_dgram(n) == Some(d) && d.sid.v == session_id.v,
+//@ |         Err(e) => feed_dgram(n) is None && e == self.result_spec(),
+//@ |     }),
+//@ loop 1 invariant lock.pos@ >= self.ready_datagrams.queue_pos(), forall|k: nat| self.ready_datagrams.queue_pos() <= k < lock.pos@ ==> foreign_dgram(#[trigger] feed_dgram(k), session_id)
 //@ end
 }
 
